@@ -60,6 +60,13 @@ structure St where
   loads : Nat := 0
   /-- addresses of entries dropped because they lost the insertion (keep-first) -/
   dropped : List Nat := []
+  /-- **ownership ledger (ghost state, C13)**: the type of every value created so far (by a loader,
+  or handed to `get_or_insert`); the identity of a value is its index in this list -/
+  made : List Nat := []
+  /-- which value each live entry holds: `(address of the entry, value id)` -/
+  held : List (Nat × Nat) := []
+  /-- values that left the cache: dropped by it, or handed to the caller (`take`, `load_owned`) -/
+  gone : List Nat := []
   deriving Repr
 
 def St.lookup (s : St) (k : Key) : Option Cell := (s.map.find? (·.1 = k)).map (·.2)
@@ -69,6 +76,74 @@ def St.insertKeepFirst (s : St) (k : Key) (c : Cell) : St × Cell :=
   match s.lookup k with
   | some c' => ({ s with dropped := s.dropped ++ [c.addr] }, c')
   | none => ({ s with map := s.map ++ [(k, c)] }, c)
+
+/-- A new value of type `ty` is stored in the entry at `addr` — or, when the insertion lost
+(`entry().or_insert`: the key was there), dropped with its entry. -/
+def St.own (s : St) (ty addr : Nat) (lost : Bool) : St :=
+  { s with made := s.made ++ [ty],
+           held := if lost then s.held else s.held ++ [(addr, s.made.length)],
+           gone := if lost then s.gone ++ [s.made.length] else s.gone }
+
+/-- A new value of type `ty` leaves the cache at once: returned by `load_owned`, or passed to
+`get_or_insert` on a present key and dropped. -/
+def St.handOut (s : St) (ty : Nat) : St :=
+  { s with made := s.made ++ [ty], gone := s.gone ++ [s.made.length] }
+
+/-- The entries at `addrs` leave the map (`remove`, `take`, `clear`): their values are dropped or
+handed to the caller. -/
+def St.release (s : St) (addrs : List Nat) : St :=
+  { s with gone := s.gone ++ ((s.held.filter (fun x => x.1 ∈ addrs)).map (·.2)),
+           held := s.held.filter (fun x => x.1 ∉ addrs) }
+
+/-- `UntypedEntry::write`: the entry at `addr` gets a new value of type `ty`; the one it held is
+dropped by the caller after the lock is released. -/
+def St.swapValue (s : St) (ty addr : Nat) : St :=
+  { s with made := s.made ++ [ty],
+           held := s.held.map (fun x => if x.1 = addr then (addr, s.made.length) else x),
+           gone := s.gone ++ ((s.held.filter (fun x => x.1 = addr)).map (·.2)) }
+
+/-! The ledger is ghost state: none of its updates touches what the cache computes with. -/
+section ghost
+variable (s : St) (ty addr : Nat) (lost : Bool) (addrs : List Nat)
+@[simp] theorem St.own_map : (s.own ty addr lost).map = s.map := rfl
+@[simp] theorem St.own_next : (s.own ty addr lost).next = s.next := rfl
+@[simp] theorem St.own_recs : (s.own ty addr lost).recs = s.recs := rfl
+@[simp] theorem St.own_out : (s.own ty addr lost).out = s.out := rfl
+@[simp] theorem St.own_ios : (s.own ty addr lost).ios = s.ios := rfl
+@[simp] theorem St.own_loads : (s.own ty addr lost).loads = s.loads := rfl
+@[simp] theorem St.own_dropped : (s.own ty addr lost).dropped = s.dropped := rfl
+@[simp] theorem St.handOut_map : (s.handOut ty).map = s.map := rfl
+@[simp] theorem St.handOut_next : (s.handOut ty).next = s.next := rfl
+@[simp] theorem St.handOut_recs : (s.handOut ty).recs = s.recs := rfl
+@[simp] theorem St.handOut_out : (s.handOut ty).out = s.out := rfl
+@[simp] theorem St.handOut_ios : (s.handOut ty).ios = s.ios := rfl
+@[simp] theorem St.handOut_loads : (s.handOut ty).loads = s.loads := rfl
+@[simp] theorem St.handOut_dropped : (s.handOut ty).dropped = s.dropped := rfl
+@[simp] theorem St.release_map : (s.release addrs).map = s.map := rfl
+@[simp] theorem St.release_next : (s.release addrs).next = s.next := rfl
+@[simp] theorem St.release_recs : (s.release addrs).recs = s.recs := rfl
+@[simp] theorem St.release_out : (s.release addrs).out = s.out := rfl
+@[simp] theorem St.release_ios : (s.release addrs).ios = s.ios := rfl
+@[simp] theorem St.release_loads : (s.release addrs).loads = s.loads := rfl
+@[simp] theorem St.release_dropped : (s.release addrs).dropped = s.dropped := rfl
+@[simp] theorem St.swapValue_map : (s.swapValue ty addr).map = s.map := rfl
+@[simp] theorem St.swapValue_next : (s.swapValue ty addr).next = s.next := rfl
+@[simp] theorem St.swapValue_recs : (s.swapValue ty addr).recs = s.recs := rfl
+@[simp] theorem St.swapValue_out : (s.swapValue ty addr).out = s.out := rfl
+@[simp] theorem St.swapValue_ios : (s.swapValue ty addr).ios = s.ios := rfl
+@[simp] theorem St.swapValue_loads : (s.swapValue ty addr).loads = s.loads := rfl
+@[simp] theorem St.swapValue_dropped : (s.swapValue ty addr).dropped = s.dropped := rfl
+@[simp] theorem St.own_lookup (k : Key) : (s.own ty addr lost).lookup k = s.lookup k := rfl
+@[simp] theorem St.handOut_lookup (k : Key) : (s.handOut ty).lookup k = s.lookup k := rfl
+@[simp] theorem St.release_lookup (k : Key) : (s.release addrs).lookup k = s.lookup k := rfl
+@[simp] theorem St.swapValue_lookup (k : Key) : (s.swapValue ty addr).lookup k = s.lookup k := rfl
+/-- the state without the ghost ledger: everything the cache computes with -/
+def St.core : St := { s with made := [], held := [], gone := [] }
+@[simp] theorem St.own_core : (s.own ty addr lost).core = s.core := rfl
+@[simp] theorem St.handOut_core : (s.handOut ty).core = s.core := rfl
+@[simp] theorem St.release_core : (s.release addrs).core = s.core := rfl
+@[simp] theorem St.swapValue_core : (s.swapValue ty addr).core = s.core := rfl
+end ghost
 
 def depInsert (d : Dep) (ds : List Dep) : List Dep := if d ∈ ds then ds else ds ++ [d]
 
@@ -156,7 +231,9 @@ def eval (env : Env) : Nat → St → Prog → St × Outcome
   | f+1, s, .loadOwned key k =>
       let s := s.record (recordsAsset (env.types key.ty).hot env.hasReloader) (.asset key)
       let (s1, o) := loadAndRecord env (fun s => eval env f s ((env.types key.ty).prog key.id)) key s
-      cont o s1 (fun r s => eval env f s (k r)) id
+      match o with
+      | .ok v => eval env f (s1.handOut key.ty) (k (.ok v))   -- the caller owns the value
+      | o => cont o s1 (fun r s => eval env f s (k r)) id
   | f+1, s, .load key k =>
       let s := s.record (recordsAsset (env.types key.ty).hot env.hasReloader) (.asset key)
       match s.lookup key with
@@ -166,7 +243,7 @@ def eval (env : Env) : Nat → St → Prog → St × Outcome
         match o with
         | .ok v =>
             let r := s1.insertKeepFirst key (newCell env key.ty v s1.next)
-            eval env f { r.1 with next := s1.next + 1 } (k (.ok r.2.val))
+            eval env f (St.own { r.1 with next := s1.next + 1 } key.ty s1.next (s1.lookup key).isSome) (k (.ok r.2.val))
         | o => cont o s1 (fun r s => eval env f s (k r)) id
 
 /-! ## Operations of the public API (one thread, `&mut` operations included) -/
@@ -210,6 +287,26 @@ def outcomeRes : Outcome → Res
   | .panicked => .panicked
   | .diverged => .diverged
 
+/-- What a view of an untyped entry at type `req` yields (`UntypedHandle::downcast_ref`, `is`,
+`downcast` of the guard), as the extracted facts say the code computes it: the stored type id is the
+one of the value the entry was created with, `is::<T>` compares it with `TypeId::of::<T>()`, and both
+reinterpreting casts sit under `if self.is::<T>()`. -/
+def viewAs (stored req : Nat) : Option Nat :=
+  if isComparesTypeId && entryStoresOwnTypeId && downcastRefGuarded && downcastBoxGuarded && publicViewsUseGuardedCasts then
+    (if stored = req then some stored else none)
+  else some req   -- an unguarded cast would reinterpret
+
+/-- Does the harness track values of this type in its ownership ledger (script assets, `M`, `Arc`s
+of them)? Directories and plain integers carry no identity there. -/
+def trackedTy (ty : Nat) : Bool := ty < 30
+
+/-- the ledger as the harness can observe it: values created / gone, of tracked types -/
+def St.ledgerCounts (s : St) : Nat × Nat :=
+  ((s.made.filter trackedTy).length, (s.gone.filter (fun v => trackedTy (s.made.getD v 99))).length)
+
+/-- the address of the entry stored under `key` (as a list: empty when absent) -/
+def addrsOf (s : St) (key : Key) : List Nat := (s.map.filter (·.1 = key)).map (·.2.addr)
+
 def step (env : Env) (fuel : Nat) (s : St) : Op → St × Res
   | .load key =>
     let (s1, o) := evalTop env fuel s (.load key Prog.ret')
@@ -224,16 +321,16 @@ def step (env : Env) (fuel : Nat) (s : St) : Op → St × Res
     (s, match s.lookup key with | some c => .handle c.addr c.val | none => .none)
   | .getOrInsert key v =>
     match s.lookup key with
-    | some c => (s, .handle c.addr c.val)
+    | some c => (s.handOut key.ty, .handle c.addr c.val)   -- the value passed in is dropped
     | none =>
       let c : Cell := { val := v, dyn := insertedEntryDynamic (env.types key.ty).hot env.hasReloader,
                         rid := ReloadId_NEVER, flag := false, addr := s.next }
       let r := s.insertKeepFirst key c
-      ({ r.1 with next := s.next + 1 }, .handle r.2.addr r.2.val)
+      (St.own { r.1 with next := s.next + 1 } key.ty s.next false, .handle r.2.addr r.2.val)
   | .contains key => (s, .bool (s.lookup key).isSome)
-  | .remove key => ({ s with map := s.map.filter (·.1 ≠ key) }, .bool (s.lookup key).isSome)
+  | .remove key => (St.release { s with map := s.map.filter (·.1 ≠ key) } (addrsOf s key), .bool (s.lookup key).isSome)
   | .take key =>
-    ({ s with map := s.map.filter (·.1 ≠ key) }, match s.lookup key with | some c => .value c.val | none => .none)
-  | .clear => ({ (if env.hasReloader then s.send .clear else s) with map := [] }, .unit)
+    (St.release { s with map := s.map.filter (·.1 ≠ key) } (addrsOf s key), match s.lookup key with | some c => .value c.val | none => .none)
+  | .clear => (St.release { (if env.hasReloader then s.send .clear else s) with map := [] } (s.map.map (·.2.addr)), .unit)
 
 end AmVerif.Model
